@@ -1387,4 +1387,102 @@ theorem loopless_orthogonal (n : Net) (ns : List (List Rat)) (cutoff : Rat) (x :
         exact ⟨by simp [filterRow, hl a (by simp)], ih (fun r hr => hl r (by simp [hr]))⟩
     exact this ns hlen
 
+/-! ### reduced costs of the flux-balance problem -/
+
+/-- coefficient of the variable `w` in a linear expression -/
+def coefIn (co : List (V × Rat)) (w : V) : Rat := (co.map (fun p => if p.1 = w then p.2 else 0)).sum
+
+/-- reduced cost of the variable `w` under row multipliers `y` (indexed by row name): `c_w − Σ_rows y_row · a_{row,w}` -/
+def Prob.rc (p : Prob) (y : String → Rat) (w : V) : Rat := coefIn p.obj w - (p.rows.map (fun r => y r.name * coefIn r.co w)).sum
+
+/-- objective coefficient of reaction `i` -/
+def Net.objCoef (n : Net) (i : Nat) : Rat := (n.obj.map (fun p => if p.1 = i then p.2 else 0)).sum
+
+theorem coefIn_flatMap {α : Type} (l : List α) (f : α → List (V × Rat)) (w : V) :
+    coefIn (l.flatMap f) w = (l.map (fun a => coefIn (f a) w)).sum := by
+  induction l with
+  | nil => rfl
+  | cons a l ih =>
+    have happ : ∀ u v : List (V × Rat), coefIn (u ++ v) w = coefIn u w + coefIn v w := by
+      intro u v; simp [coefIn, List.sum_append]
+    simp [List.flatMap_cons, happ, ih]
+
+theorem coefIn_flux_fwd (j i : Nat) (c : Rat) : coefIn (flux j c) (.fwd i) = if j = i then c else 0 := by
+  simp [coefIn, flux]
+
+theorem coefIn_flux_rev (j i : Nat) (c : Rat) : coefIn (flux j c) (.rev i) = if j = i then -c else 0 := by
+  simp [coefIn, flux]
+
+theorem sum_map_zero {α : Type} (l : List α) : (l.map (fun _ => (0 : Rat))).sum = 0 := by
+  induction l with
+  | nil => rfl
+  | cons a l ih => simp only [List.map_cons, List.sum_cons, ih]; norm_num
+
+theorem sum_ite_eq (l : List Nat) (hnd : l.Nodup) (i : Nat) (hi : i ∈ l) (f : Nat → Rat) :
+    (l.map (fun j => if j = i then f j else 0)).sum = f i := by
+  induction l with
+  | nil => simp at hi
+  | cons a l ih =>
+    simp only [List.nodup_cons] at hnd
+    simp only [List.map_cons, List.sum_cons]
+    rcases List.mem_cons.1 hi with rfl | hl
+    · have : (l.map (fun j => if j = i then f j else 0)).sum = 0 := by
+        have h0 : ∀ j ∈ l, (fun j => if j = i then f j else 0) j = (fun _ => (0 : Rat)) j := by
+          intro j hj
+          have : j ≠ i := fun h => hnd.1 (h ▸ hj)
+          simp only [this, if_false]
+        rw [sum_map_congr _ _ _ h0]
+        exact sum_map_zero l
+      simp [this]
+    · have hne : a ≠ i := fun h => hnd.1 (h ▸ hl)
+      simp [hne, ih hnd.2 hl]
+
+theorem idx_nodup (n : Net) : n.idx.Nodup := List.nodup_range
+
+/-- **reduced costs are `c − Sᵀy`**: in the flux-balance problem, under any row multipliers `y` (the shadow prices, by metabolite), the reduced cost
+of the forward variable of reaction `i` — the value cobrapy reports as the reaction's reduced cost — is the objective coefficient minus the
+stoichiometric column times `y`, and the reduced cost of the reverse variable is its negative -/
+theorem fba_reduced_cost (n : Net) (y : String → Rat) (i : Nat) (hi : i ∈ n.idx) :
+    n.fba.rc y (.fwd i) = n.objCoef i - (n.mets.map (fun m => y m * coefOf (n.rx i).st m)).sum ∧
+    n.fba.rc y (.rev i) = -(n.objCoef i - (n.mets.map (fun m => y m * coefOf (n.rx i).st m)).sum) := by
+  have hobjF : coefIn n.objExpr (.fwd i) = n.objCoef i := by
+    unfold Net.objExpr Net.objCoef
+    rw [coefIn_flatMap]
+    exact sum_map_congr _ _ _ (fun p _ => coefIn_flux_fwd p.1 i p.2)
+  have hobjR : coefIn n.objExpr (.rev i) = -n.objCoef i := by
+    unfold Net.objExpr Net.objCoef
+    rw [coefIn_flatMap]
+    have : ∀ l : List (Nat × Rat), (l.map (fun p => coefIn (flux p.1 p.2) (.rev i))).sum = -(l.map (fun p => if p.1 = i then p.2 else 0)).sum := by
+      intro l
+      induction l with
+      | nil => simp
+      | cons a l ih =>
+        simp only [List.map_cons, List.sum_cons]
+        rw [ih, coefIn_flux_rev]
+        split <;> ring
+    exact this n.obj
+  have hrowF : ∀ m, coefIn (n.metRow m).co (.fwd i) = coefOf (n.rx i).st m := by
+    intro m
+    unfold Net.metRow
+    rw [coefIn_flatMap]
+    have := sum_ite_eq n.idx (idx_nodup n) i hi (fun j => coefOf (n.rx j).st m)
+    rw [← this]
+    exact sum_map_congr _ _ _ (fun j _ => coefIn_flux_fwd j i _)
+  have hrowR : ∀ m, coefIn (n.metRow m).co (.rev i) = -coefOf (n.rx i).st m := by
+    intro m
+    unfold Net.metRow
+    rw [coefIn_flatMap]
+    have := sum_ite_eq n.idx (idx_nodup n) i hi (fun j => -coefOf (n.rx j).st m)
+    rw [← this]
+    exact sum_map_congr _ _ _ (fun j _ => coefIn_flux_rev j i _)
+  have hname : ∀ m, (n.metRow m).name = m := fun _ => rfl
+  unfold Prob.rc
+  simp only [Net.fba, List.map_map, Function.comp_def, hobjF, hobjR, hrowF, hrowR, hname]
+  refine ⟨trivial, ?_⟩
+  have : (n.mets.map (fun m => y m * -coefOf (n.rx i).st m)).sum = -(n.mets.map (fun m => y m * coefOf (n.rx i).st m)).sum := by
+    induction n.mets with
+    | nil => simp
+    | cons a l ih => simp only [List.map_cons, List.sum_cons, ih]; ring
+  rw [this]; ring
+
 end AuxM
